@@ -38,7 +38,7 @@ type callsScen struct {
 func callsFieldTypes(fk string) (string, string) {
 	m := map[string][2]string{"i2i": {"int", "int"}, "i2s": {"int", "string"}, "ptrA": {"*A", "*A2"}, "ptrB": {"*B", "*B2"},
 		"slcA": {"[]A", "[]A2"}, "slcB": {"[]B", "[]B2"}, "valB": {"B", "B2"},
-		"s2s": {"string", "string"}, "mapB": {"map[string]B", "map[string]B2"}, "mapK": {"map[int]int", "map[string]int"}, "mapV": {"map[string]int", "map[string]string"}, "p2vB": {"*B", "B2"}, "p2s": {"*int", "string"}, "mth": {"int", "int"}, "nI2s": {"NI", "string"}, "nL": {"LP", "[]int"}}
+		"s2s": {"string", "string"}, "mapB": {"map[string]B", "map[string]B2"}, "mapK": {"map[int]int", "map[string]int"}, "mapV": {"map[string]int", "map[string]string"}, "mapKV": {"map[int]int", "map[string]string"}, "p2vB": {"*B", "B2"}, "p2s": {"*int", "string"}, "mth": {"int", "int"}, "nI2s": {"NI", "string"}, "nL": {"LP", "[]int"}}
 	return m[fk][0], m[fk][1]
 }
 
@@ -55,6 +55,9 @@ func callsSource(i int, s callsScen) string {
 	wrap := ""
 	if s.Wrap == "using" {
 		wrap = "// goverter:wrapErrorsUsing v.test/b/wx\n"
+	}
+	if s.Wrap == "plain" {
+		wrap = "// goverter:wrapErrors\n"
 	}
 	for _, sh := range s.Shape {
 		for _, fk := range sh {
@@ -426,6 +429,28 @@ func cmdCalls(args []string) {
 					r["path"] = strings.Split(parts[0], "/")
 				}
 				e = parts[1]
+			}
+			// wrapErrors: "error setting field F: error setting index 1: <cause>", one prefix per method
+			chain := []string{}
+			for {
+				if rest, ok := strings.CutPrefix(e, "error setting field "); ok {
+					if k := strings.Index(rest, ": "); k >= 0 {
+						chain = append(chain, rest[:k])
+						e = rest[k+2:]
+						continue
+					}
+				}
+				if rest, ok := strings.CutPrefix(e, "error setting index "); ok {
+					if k := strings.Index(rest, ": "); k >= 0 {
+						chain = append(chain, "["+rest[:k]+"]")
+						e = rest[k+2:]
+						continue
+					}
+				}
+				break
+			}
+			if len(chain) > 0 {
+				r["path"] = chain
 			}
 			r["err"] = strings.TrimPrefix(e, "inj:")
 		}
